@@ -55,7 +55,11 @@ abbrev StSet := Std.HashSet St
 /-- Acceptor state: a model state plus the result the consumer has received and recycled but not
 yet logged (`cr` is logged by the consumer closure only after `next()` has returned, i.e. after the
 previous data set was sent back, which may already have enabled the reader's next `fill_data`). -/
-abbrev ASt := St × Option (Nat × Nat)
+/- The third component: a failed `reader_init` has been logged (`ri0`) but the reader thread has not yet gone away –
+the log entry is written inside the closure, the channel ends are dropped only when the thread function returns, so
+sends of the main thread may still succeed in between.  The model's reader step `start → exited` is then taken later,
+as an internal step. -/
+abbrev ASt := St × Option (Nat × Nat) × Bool
 abbrev AStSet := Std.HashSet ASt
 
 def isMain : Tid → Bool
@@ -69,15 +73,18 @@ def isRecycle (s : St) : Bool :=
 
 /-- internal steps of the acceptor from `(s, pending)` -/
 def tauSteps (c : Cfg) (a : ASt) : List ASt :=
-  let (s, pend) := a
-  (tids s).filterMap fun t =>
+  let (s, pend, riPend) := a
+  let late : List ASt :=
+    if riPend then ((step c s .reader).map fun s' => (s', pend, false)).toList else []
+  late ++ (tids s).filterMap fun t =>
     if isMain t then
       if pend.isSome then none                      -- the consumer logs `cr` before doing anything else
       else if isRecycle s then
-        (step c s t).map fun s' => (s', s.delivered.getLast?)
-      else if (label c s t).isNone then (step c s t).map fun s' => (s', none)
+        (step c s t).map fun s' => (s', s.delivered.getLast?, riPend)
+      else if (label c s t).isNone then (step c s t).map fun s' => (s', none, riPend)
       else none
-    else if (label c s t).isNone then (step c s t).map fun s' => (s', pend)
+    else if riPend then none                        -- the reader's only step is the pending one
+    else if (label c s t).isNone then (step c s t).map fun s' => (s', pend, riPend)
     else none
 
 def tauClosure (c : Cfg) (fuel : Nat) (start : List ASt) : AStSet := Id.run do
@@ -99,22 +106,26 @@ def tauClosure (c : Cfg) (fuel : Nat) (start : List ASt) : AStSet := Id.run do
 
 def afterEvent (c : Cfg) (states : AStSet) (e : Ev) : List ASt := Id.run do
   let mut out : List ASt := []
-  for (s, pend) in states do
+  for (s, pend, riPend) in states do
     match e, pend with
-    | .cr d k, some p => if p == (d, k) then out := (s, none) :: out
+    | .cr d k, some p => if p == (d, k) then out := (s, none, riPend) :: out
     | .cr _ _, none => pure ()
     | _, _ =>
+      -- a failed reader initialisation may be logged before the thread is gone
+      if e == .ri false && !riPend && label c s .reader == some e then
+        out := (s, pend, true) :: out
       for t in tids s do
-        if !(isMain t && (pend.isSome || isRecycle s)) && label c s t == some e then
+        let isReader := match t with | .reader => true | _ => false
+        if !(isMain t && (pend.isSome || isRecycle s)) && !(riPend && isReader) && label c s t == some e then
           match step c s t with
-          | some s' => out := (s', pend) :: out
+          | some s' => out := (s', pend, riPend) :: out
           | none => pure ()
   return out
 
 /-- `none` = accepted (and a final state is reachable at the end); `some i` = the trace is not a
 behaviour of the model: event `i` (0-based) cannot happen, `i = length` = no final state -/
 def accept (c : Cfg) (trace : List Ev) : Option Nat := Id.run do
-  let mut cur : List ASt := [(init, none)]
+  let mut cur : List ASt := [(init, none, false)]
   let mut i := 0
   for e in trace do
     let cl := tauClosure c 100000 cur
